@@ -78,7 +78,7 @@ CHECKS = {
                        "quick": ["-bounds", "N06len=3,N06split=5"],
                        "thorough": ["-bounds", "N06len=4,N06split=7"]},
              "reach": ["C06.matched", "C06.unmatched"], "reach_for": "H06b_.*"},
-            {"pkg": "topics", "run": "H06c_.*|H06d_.*",
+            {"pkg": "topics", "run": "H06c_.*|H06d_.*|H06e_.*",
              "flags": {"common": ["-unwind", "40"],
                        "quick": ["-bounds", "N06levels=2,N06ops=2,N06rops=3,N06validonly=1"],
                        "thorough": ["-bounds", "N06levels=2,N06ops=3,N06rops=3,N06validonly=0"]}},
@@ -123,6 +123,10 @@ CHECKS = {
             {"pkg": "sessions", "run": "H13_.*|H13b_.*", "tiers": ["quick"],
              "flags": {"common": ["-unwind", "40"], "quick": ["-bounds", "N13logsizes=2,N13ops=4"]},
              "reach": []},
+            # the property through the exported surface only (keeps deciding when the ring's representation is refactored)
+            {"pkg": "sessions", "run": "H13p_.*",
+             "flags": {"common": ["-unwind", "40"], "quick": ["-bounds", "N13pops=3"], "thorough": ["-bounds", "N13pops=4"]},
+             "reach": ["C13.history_public", "C13.grown_while_wrapped", "C13.released_some"]},
             {"pkg": "sessions", "run": "H13_wait|H13_ack", "tiers": ["thorough"],
              "flags": {"common": ["-unwind", "40"], "thorough": ["-bounds", "N13logsizes=3"]},
              "reach": []},
